@@ -28,7 +28,10 @@ def run(tier):
             rec["opts"] = {"file": True}
             rec["fam"] = fam + "@file"
             if len(progs) % 2 == 0 and "\n" in eol:      # the skipped first line ends at LF (as in luaL_loadfile)
-                rec["src"] = "#!/usr/bin/env lua -- first line of a script file" + eol + src
+                first = "#!/usr/bin/env lua -- first line of a script file"
+                if len(progs) % 4 == 0:          # ... longer than every read buffer of the loader (4096, 8192 bytes)
+                    first += " " + "x" * (4090 + 1300 * (len(progs) % 7))
+                rec["src"] = first + eol + src
                 rec["fam"] = fam + "@shebang"
                 for nd in rec["nodes"]:
                     if nd.get("ln") and nd["ln"][0]:
